@@ -807,7 +807,9 @@ func Validate(dir Dir) error {
 	if err != nil {
 		return err
 	}
-	if ac.Sum() != ex.Sum() {
+	// The sum is computed over the names and hashes without a separator. Compare
+	// the entries as well: different entries can add up to the same stream.
+	if ac.Sum() != ex.Sum() || !slices.Equal(ac, ex) {
 		err := &ChecksumError{Total: len(ac)}
 		// Determine the reason for the mismatch. Iterate over the file sum,
 		// based on it determine if a file was removed, added or edited.
